@@ -54,6 +54,8 @@ def run(prop, tier):
             "numbers are exact dyadic rationals (|x| < 2^20, 10 fractional bits): an application whose exact result is "
             "not representable (1 div 3, 1048575*3, number('0.1')) is only required to yield a number; accuracy of "
             "inexact IEEE-754 results and the digits of string(number) for such values are not decided here",
+            "number -> string outside the exact range: an example table of 14 expressions (ScalarFns!NumStringTable: 10^12, "
+            "10^21, 2^53, 2^-20, 10^-7, 0.1+0.2, 1 div 3, literal forms .5 5. 007 1.50), not an enumeration",
             "lang(), id() and the node-set functions are exercised by C05, not here",
         ]
         xp._summary(out)
